@@ -284,7 +284,7 @@ def contains_oom(v):
     return False
 
 
-def run_stream(prop, stream, res, limit_fail=50):
+def run_stream(prop, stream, res, limit_fail=20000):
     name, op, cases = stream['name'], stream['op'], stream['cases']
     t0 = time.time()
     n0 = res.evaluations
